@@ -89,15 +89,22 @@ def q2(chk, repo):
         if any(x.key.endswith(":normalize_chunksize") for x in resolve_callees(repo, pi, c.func)):
             call = c
     if call is None:
-        raise AnalysisError("anchor vanished: normalize_chunksize call in Array.__post_init__")
-    b, _ = bind_args(resolve_callees(repo, pi, call.func)[0], call)
-    st = call
-    while not isinstance(st, ast.stmt):
-        st = st._parent
-    ok = norm(b.get(nc.positional_params[0])) == "self.records_per_chunk" and norm(b.get(nc.positional_params[1])) == "self.shape[0]" \
-        and isinstance(st, ast.Assign) and norm(st.targets[0]) == "self.records_per_chunk"
-    chk.require(ok, "C06-Q2", f"{am.relpath}:Array.__post_init__", "self.records_per_chunk = normalize_chunksize(self.records_per_chunk, self.shape[0])",
-                f"the stored chunk size is {short(st, 80)}: it must depend on both the option and the number of lines", key="post_init:normalize")
+        # inlined or removed: the value stored on the integer path must still depend on both operands
+        stores = sorted((n for n in pi.own_nodes() if isinstance(n, ast.Assign) and norm(n.targets[0]) == "self.records_per_chunk"), key=lambda n: n.lineno)
+        final = stores[-1] if stores else None
+        txt = norm(final.value) if final is not None else ""
+        ok = final is not None and "self.records_per_chunk" in txt and "self.shape[0]" in txt and ("min(" in txt)
+        chk.require(ok, "C06-Q2", f"{am.relpath}:Array.__post_init__", f"integer path stores {txt} (min of the option and the number of lines)",
+                    f"the integer path stores {txt or 'nothing'}: the advertised chunk size no longer is min(records_per_chunk, lines)", key="post_init:normalize")
+    else:
+        b, _ = bind_args(resolve_callees(repo, pi, call.func)[0], call)
+        st = call
+        while not isinstance(st, ast.stmt):
+            st = st._parent
+        ok = norm(b.get(nc.positional_params[0])) == "self.records_per_chunk" and norm(b.get(nc.positional_params[1])) == "self.shape[0]" \
+            and isinstance(st, ast.Assign) and norm(st.targets[0]) == "self.records_per_chunk"
+        chk.require(ok, "C06-Q2", f"{am.relpath}:Array.__post_init__", "self.records_per_chunk = normalize_chunksize(self.records_per_chunk, self.shape[0])",
+                    f"the stored chunk size is {short(st, 80)}: it must depend on both the option and the number of lines", key="post_init:normalize")
     # exposure without arithmetic
     ch = am.func("Array.chunks")
     r = [n for n in ch.own_nodes() if isinstance(n, ast.Return)]
